@@ -39,6 +39,12 @@ def generate_cases(rng, n, opts=None, size=(2, 8), tag='gen'):
     cases = []
     stats = {}
     p_scn = (opts or {}).get('p_scenario', 0.12)
+    # every directed scenario once, whatever the draw
+    if p_scn > 0:
+        for k in sorted(set(gen_prog.SCENARIO_KINDS)):
+            world = gen_prog.World.generate(rng, kinds=(opts or {}).get('kinds', True))
+            cases.append(Case(gen_prog.scenario(rng, world, k), world, '%s-scenario-%s' % (tag, k)))
+            stats['scenario'] = stats.get('scenario', 0) + 1
     for i in range(n):
         world = gen_prog.World.generate(rng, kinds=(opts or {}).get('kinds', True))
         if rng.random() < p_scn:
@@ -201,6 +207,8 @@ def compare_all(ctx, prop, cases, want_sem=True, do_shrink=True):
             ctx.extra.setdefault('rejected_samples', [])
             if len(ctx.extra['rejected_samples']) < 3:
                 ctx.extra['rejected_samples'].append({'script': case.text, 'errors': obs['errors']})
+            # the generator writes valid scripts only (an AST the reference semantics runs): a rejection is the compiler's
+            ctx.counterexample(prop + '/valid-script-rejected', 'a valid generated script is rejected: %s' % str(obs['errors'])[:160], case.replay())
             continue
         if i not in coq:
             continue
